@@ -658,7 +658,7 @@ macro_rules! impl_const_elem_matrix {
         let mut cursor = Cursor::new(bytes);
         let rows = cursor.read_u32::<LittleEndian>().unwrap() as usize;
         let cols = cursor.read_u32::<LittleEndian>().unwrap() as usize;
-        let mut elements: Vec<T> = Vec::with_capacity(rows * cols);
+        let mut elements: Vec<T> = Vec::with_capacity(rows.saturating_mul(cols).min(bytes.len()));
 
         // Read in column-major order
         for _c in 0..cols {
@@ -698,7 +698,7 @@ where
     let mut cursor = Cursor::new(bytes);
     let rows = cursor.read_u32::<LittleEndian>().unwrap() as usize;
     let cols = cursor.read_u32::<LittleEndian>().unwrap() as usize;
-    let mut elements = Vec::with_capacity(rows * cols);
+    let mut elements = Vec::with_capacity(rows.saturating_mul(cols).min(bytes.len()));
     // Read in column-major order
     for _c in 0..cols {
       for _r in 0..rows {
@@ -733,7 +733,7 @@ where
     let mut cursor = Cursor::new(bytes);
     let rows = cursor.read_u32::<LittleEndian>().unwrap() as usize;
     let cols = cursor.read_u32::<LittleEndian>().unwrap() as usize;
-    let mut elements = Vec::with_capacity(rows * cols);
+    let mut elements = Vec::with_capacity(rows.saturating_mul(cols).min(bytes.len()));
     // Read in column-major order
     for _c in 0..cols {
       for _r in 0..rows {
@@ -768,7 +768,7 @@ where
     let mut cursor = Cursor::new(bytes);
     let rows = cursor.read_u32::<LittleEndian>().unwrap() as usize;
     let cols = cursor.read_u32::<LittleEndian>().unwrap() as usize;
-    let mut elements = Vec::with_capacity(rows * cols);
+    let mut elements = Vec::with_capacity(rows.saturating_mul(cols).min(bytes.len()));
     // Read in column-major order
     for _c in 0..cols {
       for _r in 0..rows {
@@ -853,7 +853,7 @@ where
     let mut cursor = Cursor::new(bytes);
     let rows = cursor.read_u32::<LittleEndian>().unwrap() as usize;
     let cols = cursor.read_u32::<LittleEndian>().unwrap() as usize;
-    let mut elements = Vec::with_capacity(rows * cols);
+    let mut elements = Vec::with_capacity(rows.saturating_mul(cols).min(bytes.len()));
     // Read in column-major order
     for _c in 0..cols {
       for _r in 0..rows {
